@@ -362,15 +362,24 @@ func (p *Plugin) out(workerData *pipeline.WorkerData, batch *pipeline.Batch) err
 
 	batch.ForEach(func(event *pipeline.Event) {
 		// "event" field is necessary, it always contains full event data
-		root.AddField("event").MutateToNode(event.Root.Node)
+		eventNode := root.AddField("event")
 		// copy data from original event to other fields, like event's "ts" to outbuf's "time"
 		for _, cf := range p.copyFieldsPaths {
 			fieldVal := event.Root.Dig(cf.fromPath...)
 			if fieldVal == nil {
 				continue
 			}
-			pipeline.CreateNestedField(root, cf.toPath).MutateToNode(fieldVal)
+			dst := pipeline.CreateNestedField(root, cf.toPath)
+			if fieldVal.IsObject() || fieldVal.IsArray() {
+				// MutateToNode links the children of a container instead of copying them,
+				// and a subtree linked in two places (here and under "event") breaks encoding:
+				// make a real copy.
+				dst.MutateToJSON(root, fieldVal.EncodeToString())
+			} else {
+				dst.MutateToNode(fieldVal)
+			}
 		}
+		eventNode.MutateToNode(event.Root.Node)
 		outBuf = root.Encode(outBuf)
 		_ = root.DecodeString("{}")
 	})
